@@ -58,7 +58,7 @@ DEC_BOUNDS = {
     "quick": ("BFS all orders + duplicates + both APIs (+FINISH): RS codec1/codec2(m=8,m=4) 1<=k<n<=6, LDPC k<=5,r in 3..5,n<=9,N1 in 3..min(r,5),seeds{1,2}; SAS subsets n<=9; "
               "lowrate grid: 8 LDPC blocks k 2..4, r 10..14, N1 5..7, all orders of every prefix up to 5-6 symbols; "
               "subsets mode: all 2^n received subsets for RS m=4 n<=12, m=8/codec1 n<=11, LDPC n<=13 (SAS+FIN, ascending DWS+FIN, descending DWS); "
-              "large: RS (k,n) list up to 255 and LDPC (100,50),(40,20),(255,64),(1000,10),(700,6): all/first-k/last-k/k-1 symbols, single loss, one source replaced by one repair, cyclic windows, periodic losses, on strides; RS scenarios with a prelude (an earlier decoder session of the same codec, field and k with fewer repair symbols has rebuilt a lost source in the same process) for every k on a stride; low-rate even-N1 LDPC codes whose number of extra entries 2(n-k)-N1*k is 254 / 256 / 258 / 512 (thorough 65536): both orders, every single lost source, windows with and without the last repair symbol (a session that takes the last repair symbol for null although the reference matrix does not make it null is a violation); "
+              "large: RS (k,n) list up to 255 and LDPC (100,50),(40,20),(255,64),(1000,10),(700,6): all/first-k/last-k/k-1 symbols, single loss, one source replaced by one repair, cyclic windows, periodic losses, on strides; RS scenarios with a prelude (an earlier decoder session of the same codec, field and k with fewer repair symbols has rebuilt a lost source in the same process) for every k on a stride; low-rate even-N1 LDPC codes whose number of extra entries 2(n-k)-N1*k is 254 / 256 / 258 / 512 (thorough 65536): both orders, every single lost source, windows with and without the last repair symbol (a session that takes the last repair symbol for null although the reference matrix does not make it null is a violation); every n-k in 131..2100 (thorough ..4200) with k = 2(n-k), 8-byte symbols, three received windows of 1.05k..1.2k symbols (Gaussian elimination); dense source columns: k 2..4, n-k 3..24, N1 in {n-k, n-k-1, 9, 12, 15}, repairs first with one / two sources lost; symbol lengths of the large LDPC configurations cover every residue modulo 8; "
               "rows (C01, C03, C07): LDPC k 2..20, r 3..12, N1 3..5, seeds 1..3 (n<=44): every single equation, pair, and triple touching the first or last equation erased completely, everything else received, FINISH through both APIs; "
               "lens: 10 configurations x symbol lengths 1..40,63,64,65 x buffer alignments 0..7 (half of them above length 20) x callback none/buffer, plus the limits (k=1, k=n-1=254, n=255, m=4 n=15, LDPC n=5000); EVERY symbol length 41..2100 with configuration / alignment / callback rotating with the length; "
               "mid-range diagonal (large): every second k up to 252 for both RS codecs with a number of repair symbols derived from k (2 + 11k mod (253-k)) and the k = n-k diagonal: last-k window, middle windows of k and k-1 symbols, periodic loss, one / two sources replaced"),
